@@ -114,6 +114,20 @@ func (uh *UpstreamHost) Full() bool {
 	return uh.MaxConns > 0 && atomic.LoadInt64(&uh.Conns) >= uh.MaxConns
 }
 
+// reserveConn counts one more connection on the host unless that would
+// exceed MaxConns; it reports whether the connection was counted.
+func (uh *UpstreamHost) reserveConn() bool {
+	for {
+		n := atomic.LoadInt64(&uh.Conns)
+		if uh.MaxConns > 0 && n >= uh.MaxConns {
+			return false
+		}
+		if atomic.CompareAndSwapInt64(&uh.Conns, n, n+1) {
+			return true
+		}
+	}
+}
+
 // Available checks whether the upstream host is available for proxying to
 func (uh *UpstreamHost) Available() bool {
 	return !uh.Down() && !uh.Full()
@@ -249,8 +263,18 @@ func (p Proxy) ServeHTTP(w http.ResponseWriter, r *http.Request) (int, error) {
 		//   The call to proxy.ServeHTTP can theoretically panic.
 		//   To prevent host.Conns from getting out-of-sync we thus have to
 		//   make sure that it's _always_ correctly decremented afterwards.
+		//
+		//   Select only saw a snapshot of host.Conns: another request may have
+		//   taken the host's last connection slot since then. Take the slot
+		//   atomically and treat a host that filled up like no host at all.
+		if !host.reserveConn() {
+			backendErr = errors.New("selected upstream host reached max_conns")
+			if !keepRetrying(backendErr) {
+				break
+			}
+			continue
+		}
 		func() {
-			atomic.AddInt64(&host.Conns, 1)
 			defer atomic.AddInt64(&host.Conns, -1)
 			backendErr = proxy.ServeHTTP(w, outreq, downHeaderUpdateFn)
 		}()
